@@ -432,6 +432,9 @@ void modeSbSweep(const Case& cs) {
     if (ti != 256) { gOut.line("BADCASE\ttable has " + itos(ti) + " entries"); return; }
     std::vector<bool> skipCp(0x110000, false);
     { std::string u = cs.get("ucps"); size_t a = 0; while (a < u.size()) { size_t b = u.find(',', a); std::string tok = u.substr(a, b == std::string::npos ? std::string::npos : b - a); if (!tok.empty()) skipCp[strtoul(tok.c_str(), 0, 16) % 0x110000] = true; if (b == std::string::npos) break; a = b + 1; } }
+    std::vector<bool> bestFit(0x110000, false);
+    { std::string u = cs.get("bf"); size_t a = 0; while (a < u.size()) { size_t b = u.find(',', a); std::string tok = u.substr(a, b == std::string::npos ? std::string::npos : b - a); if (!tok.empty()) bestFit[strtoul(tok.c_str(), 0, 16) % 0x110000] = true; if (b == std::string::npos) break; a = b + 1; } }
+    bool dumpBf = cs.geti("dumpbf", 0) != 0;
     std::vector<int> inv(0x110000, -1);
     for (int b = 255; b >= 0; b--) if (table[b] >= 0) inv[table[b]] = b;
     XMLTranscoder* t = mk(enc);
@@ -470,7 +473,7 @@ void modeSbSweep(const Case& cs) {
             if (c >= 0x10000) { unsigned long d = c - 0x10000; u[0] = XMLCh(0xD800 + (d >> 10)); u[1] = XMLCh(0xDC00 + (d & 0x3FF)); nu = 2; } else u[0] = XMLCh(c);
             int eb = sur ? -1 : inv[c];
             if (icu && eb < 0) continue;
-            const char* cls = c == 0 ? ":nul" : sur ? ":lone-surrogate" : "";
+            const char* cls = c == 0 ? ":nul" : sur ? ":lone-surrogate" : bestFit[c] ? ":bestfit" : "";
             libEncode(t, u, nu, nu, 16, XMLTranscoder::UnRep_Throw, L, B); T.runs++; T.seqs++;
             if (L.status == L_EXC) T.exc[L.exc]++;
             if (eb >= 0) {
@@ -480,6 +483,7 @@ void modeSbSweep(const Case& cs) {
             } else {
                 // a lone high surrogate at the very end may also legitimately wait for its partner (stall)
                 bool okStall = sur && c < 0xDC00 && L.status == L_STALL;
+                if (dumpBf && L.status == L_OK && L.nb == 1) gOut.line("BF\t" + hex4(c) + "\t" + hex2(L.bytes[0]));
                 if (L.status != L_EXC && !okStall)
                     XV_MIS(T, std::string("to:unrepresentable-not-reported") + cls, "U+" + hex4(c) + "\tthrow\texp=exception\tobs=" + stName(L.status) + " bytes=" + hexBytes(L.bytes, L.nb));
             }
@@ -510,7 +514,7 @@ void modeSbSweep(const Case& cs) {
             if (icu && !exp) continue;
             bool can = false; try { can = t->canTranscodeTo((unsigned int)cp); } catch (...) { XV_MIS(T, "canto:threw", "U+" + hex4(cp) + "\t\texp=bool\tobs=exception"); continue; }
             T.runs++; (can ? canT : canF)++;
-            if (can != exp) XV_MIS(T, std::string("canto:") + (exp ? "false-for-representable" : "true-for-unrepresentable") + (cp == 0 ? ":nul" : sur ? ":lone-surrogate" : cp >= 0x10000 ? ":supplementary" : ""), "U+" + hex4(cp) + "\t\texp=" + (exp ? "true" : "false") + "\tobs=" + (can ? "true" : "false"));
+            if (can != exp) XV_MIS(T, std::string("canto:") + (exp ? "false-for-representable" : "true-for-unrepresentable") + (cp == 0 ? ":nul" : sur ? ":lone-surrogate" : cp >= 0x10000 ? ":supplementary" : bestFit[cp] ? ":bestfit" : ""), "U+" + hex4(cp) + "\t\texp=" + (exp ? "true" : "false") + "\tobs=" + (can ? "true" : "false"));
         }
         gOut.line("CAN\ttrue=" + itos(canT) + "\tfalse=" + itos(canF));
         // E. all representable code points as one string, several maxBytes and splits
@@ -533,6 +537,14 @@ void modeSbSweep(const Case& cs) {
 // stream of every `splitEvery`-th chunk is also decoded at every split position x maxChars 1..4.
 // Fresh transcoders per stream (ICU converters are stateful).  A short ASCII pad closes each chunk so that
 // stateful encoders (UTF-7, ISO-2022) have emitted everything that belongs to x (the library never flushes).
+// Default_Ignorable_Code_Point (superset over Unicode versions): ICU's from-Unicode callbacks skip these silently when
+// the target has no mapping (documented ICU behaviour), so canTranscodeTo says yes although no byte is produced.
+// They are left out of the round trip (counted).
+bool defaultIgnorable(unsigned long c) {
+    return c == 0xAD || c == 0x34F || c == 0x61C || (c >= 0x115F && c <= 0x1160) || (c >= 0x17B4 && c <= 0x17B5) || (c >= 0x180B && c <= 0x180F) ||
+           (c >= 0x200B && c <= 0x200F) || (c >= 0x202A && c <= 0x202E) || (c >= 0x2060 && c <= 0x206F) || c == 0x3164 || (c >= 0xFE00 && c <= 0xFE0F) ||
+           c == 0xFEFF || c == 0xFFA0 || (c >= 0xFFF0 && c <= 0xFFF8) || (c >= 0x1BCA0 && c <= 0x1BCA3) || (c >= 0x1D173 && c <= 0x1D17A) || (c >= 0xE0000 && c <= 0xE0FFF);
+}
 void modeIcuRt(const Case& cs) {
     std::string enc = cs.get("enc");
     unsigned long lo = (unsigned long)cs.geti("lo", 0x20), hi = (unsigned long)cs.geti("hi", 0x10000), step = (unsigned long)cs.geti("step", 1);
@@ -541,7 +553,7 @@ void modeIcuRt(const Case& cs) {
     if (!probe) { gOut.line("NOTRANS\t" + enc); return; }
     gOut.line("CLASS\t" + demangle(typeid(*probe).name()));
     {
-        Bufs B; Tally T; Run E, D, D2; unsigned long repr = 0, unrepr = 0, chunks = 0;
+        Bufs B; Tally T; Run E, D, D2; unsigned long repr = 0, unrepr = 0, chunks = 0, ignorable = 0;
         std::vector<XMLCh> x;
         unsigned long cp = lo;
         while (cp < hi) {
@@ -549,6 +561,10 @@ void modeIcuRt(const Case& cs) {
             while (cp < hi && have < chunk) {
                 unsigned long c = cp; cp += step;
                 if ((c >= 0xD800 && c < 0xE000) || c == 0xFFFE || c == 0xFFFF) continue;
+                if (defaultIgnorable(c)) { ignorable++; continue; }
+                // private use: ICU applies fallback (one-way) mappings from private-use code points even with fallbacks
+                // switched off (documented), so they are not "representable x" in the round-trip sense
+                if ((c >= 0xE000 && c <= 0xF8FF) || c >= 0xF0000) { ignorable++; continue; }
                 bool can = false; try { can = probe->canTranscodeTo((unsigned int)c); } catch (...) {}
                 if (!can) { unrepr++; continue; }
                 repr++; have++;
@@ -580,7 +596,7 @@ void modeIcuRt(const Case& cs) {
             }
             delete te; delete td;
         }
-        gOut.line("RT\trepresentable=" + itos(repr) + "\tunrepresentable=" + itos(unrepr) + "\tchunks=" + itos(chunks));
+        gOut.line("RT\trepresentable=" + itos(repr) + "\tunrepresentable=" + itos(unrepr) + "\tchunks=" + itos(chunks) + "\tignorable=" + itos(ignorable));
         T.emit();
     }
     delete probe;
